@@ -17,6 +17,7 @@ import (
 	"runtime"
 	"strings"
 	"sync"
+	"sync/atomic"
 	"testing"
 	"time"
 
@@ -40,9 +41,27 @@ type mapProxy struct {
 	calls     int
 	failAt    int // 1-based index of the admin call answered with 503 (0 = none)
 	failed    string
+	// holdDelete: the next DELETE of a managed endpoint (a deferred un-registration at work) is kept waiting until
+	// letGo is closed, at most 150 ms - the proxy is slow to answer while the gateway does something else
+	holdDelete atomic.Bool
+	holding    atomic.Bool
+	letGo      chan struct{}
 }
 
 func (p *mapProxy) RoundTrip(req *http.Request) (*http.Response, error) {
+	if req.Method == http.MethodDelete && strings.HasSuffix(req.URL.Path, "/managed_endpoint") && p.holdDelete.CompareAndSwap(true, false) {
+		p.holding.Store(true)
+		if os.Getenv("C14_TRACE") != "" {
+			b, _ := io.ReadAll(req.Body)
+			req.Body = io.NopCloser(strings.NewReader(string(b)))
+			fmt.Printf("PROXY holds DELETE %q\n", string(b))
+		}
+		select {
+		case <-p.letGo:
+		case <-time.After(150 * time.Millisecond):
+		}
+		p.holding.Store(false)
+	}
 	body := ""
 	if req.Body != nil {
 		b, _ := io.ReadAll(req.Body)
@@ -119,6 +138,9 @@ type reloadStep struct {
 	FailAt int    `json:"admin_call_answered_503,omitempty"`
 	// Soon: the next reload follows within the 30 s after which this reload's deferred un-registration runs
 	Soon bool `json:"next_reload_within_30s,omitempty"`
+	// Overlap: the next reload arrives while this reload's deferred un-registration is at work (its first DELETE
+	// is kept waiting by the proxy until the next reload has been answered, at most 150 ms)
+	Overlap bool `json:"next_reload_during_the_deferred_unregistration,omitempty"`
 }
 
 func TestProxyMapOverReloads(t *testing.T) {
@@ -151,8 +173,23 @@ func TestProxyMapOverReloads(t *testing.T) {
 				st.FailAt = rapid.IntRange(1, 8).Draw(t, "fail-at")
 			}
 			st.Soon = rapid.IntRange(0, 2).Draw(t, "soon") == 0
+			st.Overlap = !st.Soon && rapid.IntRange(0, 2).Draw(t, "overlap") == 0
 			return st
 		}), 2, 4).Draw(t, "reloads")
+		// a configuration change that is taken back: the reload that arrives during the deferred un-registration
+		// of reload i brings the flows of reload i-1 again (half of the time)
+		for i := 1; i+1 < len(steps); i++ {
+			if steps[i].Overlap && rapid.Bool().Draw(t, "taken-back") {
+				steps[i+1].Specs = append([]spec(nil), steps[i-1].Specs...)
+			}
+		}
+		// one case in three is exactly that: A, then B, then - while B's deferred un-registration of what A had
+		// is at work - A again
+		if len(steps) >= 3 && rapid.IntRange(0, 2).Draw(t, "a-b-a") == 0 {
+			steps[0].Soon, steps[0].Overlap, steps[0].FailAt = false, false, 0
+			steps[1].Soon, steps[1].Overlap, steps[1].FailAt = false, true, 0
+			steps[2].Specs, steps[2].FailAt = append([]spec(nil), steps[0].Specs...), 0
+		}
 		clk := vclock.New(time.Unix(1_700_000_000, 0))
 		engine.SetClock(clk)
 		// the proxy keeps its maps from case to case, exactly as the gateway keeps its idea of what is registered
@@ -216,6 +253,19 @@ func TestProxyMapOverReloads(t *testing.T) {
 			rr := httptest.NewRecorder()
 			e2eMux.ServeHTTP(rr, httptest.NewRequest(http.MethodPost, "/load_flows", nil))
 			proxy.arm(0)
+			if proxy.letGo != nil {
+				// a deferred un-registration of the reload before was kept waiting meanwhile: it goes on now
+				if os.Getenv("C14_TRACE") != "" {
+					fmt.Println("PROXY lets the held DELETE go on; reload answered", rr.Code)
+				}
+				close(proxy.letGo)
+				proxy.letGo = nil
+				proxy.holdDelete.Store(false)
+				drainShort := time.Now().Add(300 * time.Millisecond)
+				for !unmanageIdle() && time.Now().Before(drainShort) {
+					time.Sleep(200 * time.Microsecond)
+				}
+			}
 			_, _, failed := proxy.state()
 			switch {
 			case rr.Code == 200 && failed != "":
@@ -242,8 +292,30 @@ func TestProxyMapOverReloads(t *testing.T) {
 				clk.Advance(10 * time.Second)
 				continue
 			}
+			if st.Overlap && si+1 < len(steps) {
+				proxy.letGo = make(chan struct{})
+				proxy.holdDelete.Store(true)
+				clk.Advance(31 * time.Second)
+				deadline := time.Now().Add(50 * time.Millisecond)
+				for !proxy.holding.Load() && time.Now().Before(deadline) {
+					time.Sleep(100 * time.Microsecond)
+				}
+				if proxy.holding.Load() {
+					r.Class("next reload while a deferred un-registration is at work")
+					continue
+				}
+				// nothing was to be un-registered
+				close(proxy.letGo)
+				proxy.letGo = nil
+				proxy.holdDelete.Store(false)
+			}
 			drain()
 			check(si, "after the deferred un-registration (30 s later)")
+		}
+		if proxy.letGo != nil {
+			close(proxy.letGo)
+			proxy.letGo = nil
+			proxy.holdDelete.Store(false)
 		}
 	})
 }
